@@ -321,12 +321,12 @@ impl Display for Combinations {
 }
 impl Stream for Combinations {
     fn peek(&self) -> Option<NRes<Obj>> {
+        let v = self.1.as_ref()?;
+        if v.len() > self.0.len() {
+            return None;
+        }
         Some(Ok(Obj::list(
-            self.1
-                .as_ref()?
-                .iter()
-                .map(|i| self.0[*i].clone())
-                .collect(),
+            v.iter().map(|i| self.0[*i].clone()).collect(),
         )))
     }
     fn clone_box(&self) -> Box<dyn Stream> {
